@@ -390,6 +390,9 @@ func MetaDataKVHandler(resHolder *SearchResult, attrGetter AttributeGetter, addi
 				var matches bool
 				if IsIntegerSearchOp(mch) {
 					matches = fs[i].AutoMatch || intBytesMatch(primDBVal, mch, fs[i].Raw)
+				} else if mch == object.MatchNotPresent {
+					// the attribute is present in every key of this iteration
+					matches = false
 				} else {
 					checkedDBVal, fltVal, err := combineValues(attr, primDBVal, val) // TODO: deduplicate DB value preparation
 					if err != nil {
